@@ -528,6 +528,132 @@ theorem dma_then_read (m : ConstMem) (src dst r : Rng) (bs : List Nat) (hsrc : m
   rw [hc, if_neg hnc, hw, List.find?_cons, hd]
   simp only [if_pos hin, Option.map_some]
 
+/- Full statement (composition of the model with the register-level Spec): for every request in the Spec's quantifier,
+   every depth slice and each of the three shapes of `create_weights` (in place, through the DMA'd buffer, stand-alone
+   scale tensor), the ranges the model of `create_weights` derives — with the zero-length ranges of cores that own no
+   channel dropped, as the register decoder does — satisfy `ScaleRegsOk ∧ WeightRegsOk` on a memory that holds the
+   model's stream at the tensor's address (after the DMA of `create_dma_op` for the buffered shape).
+   Proved below (`_partial`): the **in-place** shape for slices in which **every core owns a channel**
+   (`ncores ≤ slice length`; always so on one core).  Missing: slices shorter than the core count (the decoder's
+   dropping of the empty SCALE1/WEIGHT1 range has to be aligned with `OpConsts.cores`), the buffered shape (needs the
+   link "ranges of one slice are contiguous in the stream", the same link `address_ranges_buffered_partial` lacks;
+   `dma_then_read` is the memory half) and the stand-alone scale tensor; `emitted_consts_witness` is a concrete
+   instance of the in-place and the buffered shape. -/
+
+/-- In place, every core owning a channel: the scale ranges of the model of `create_weights` satisfy `ScaleRegsOk`
+    on any constants image that holds the model's stream at a 16-byte aligned `base = |pre|`. -/
+theorem emitted_scale_regs_partial (c : Cfg) (offsets : List Nat) (out : Out)
+    (hv : ValidReq (reqOf c offsets)) (hbl : c.biases.length = c.fullDepth) (hsl : c.scales.length = c.fullDepth)
+    (h : encodeTensor c offsets = .ok out)
+    (m : ConstMem) (pre post : List Nat) (himg : m.image.toList = pre ++ out.stream ++ post) (hbase : pre.length % 16 = 0)
+    (s : Nat × Nat × Nat) (hs : s ∈ slices offsets) (hfull : c.ncores ≤ s.2.2)
+    (ws bs : List AddrRange) (hcw : createWeights c.ncores out.rawRanges pre.length none none s.2.1 = some (ws, bs)) :
+    ScaleRegsOk m (expOf c)
+      ⟨c.ncores, s.2.1, s.2.1 + s.2.2, bs.map (toRng m.constRegion), ws.map (toRng m.constRegion)⟩ := by
+  have hf := encodeTensor_facts c offsets out h
+  have hn : 0 < c.ncores := hv.1
+  obtain ⟨hpos, hle⟩ := slice_facts _ hv s hs
+  have hact : activeCores (reqOf c offsets) = c.ncores := by
+    unfold activeCores reqOf; simp only; have : s.2.1 + s.2.2 ≤ c.fullDepth := hle; omega
+  have hfind : ∀ k, k < c.ncores → ∃ r, findRange out.rawRanges k s.2.1 = some r ∧ r ∈ out.rawRanges ∧ Made c s.1 s.2.1 s.2.2 k r :=
+    fun k hk => find_made c offsets out hv h s hs k (by rw [hact]; exact hk)
+  have hmap := createWeightsLoop_direct_map out.rawRanges pre.length s.2.1 (List.range c.ncores) 0 (by
+    intro k hk
+    obtain ⟨r, hr, _⟩ := hfind k (List.mem_range.1 hk)
+    rw [hr]; rfl)
+  unfold createWeights at hcw
+  rw [hmap] at hcw
+  injection hcw with hcw
+  injection hcw with hws hbs
+  subst hws; subst hbs
+  have hcores : (⟨c.ncores, s.2.1, s.2.1 + s.2.2, ((List.range c.ncores).map (directScale out.rawRanges pre.length s.2.1)).map (toRng m.constRegion),
+      ((List.range c.ncores).map (directWeight out.rawRanges pre.length s.2.1)).map (toRng m.constRegion)⟩ : OpConsts).cores
+      = List.range c.ncores := by
+    unfold OpConsts.cores
+    simp only [Nat.add_sub_cancel_left]
+    apply List.filter_eq_self.2
+    intro k hk
+    have hk' := List.mem_range.1 hk
+    simp only [decide_eq_true_eq]
+    exact chanOf_nonempty _ _ _ _ hk' (by omega)
+  unfold ScaleRegsOk
+  rw [hcores]
+  refine ⟨by simp, ?_⟩
+  intro p hp
+  simp only [List.map_map, Nat.add_sub_cancel_left] at hp ⊢
+  have hp2 := mem_zip_map_self _ _ p hp
+  have hp1 : p.1 < c.ncores := List.mem_range.1 (List.of_mem_zip hp).1
+  obtain ⟨r, hr, hrm, hm⟩ := hfind p.1 hp1
+  have hg := hf.good.rng r hrm
+  obtain ⟨_, hcnt, hdec, hin⟩ := made_scale c _ _ _ _ r out.stream hm hg (by rw [hbl, hsl]) hn hp1 (by rw [hbl]; exact hle)
+  have hoff := hg.offAligned
+  rw [hp2]
+  simp only [Function.comp, toRng, directScale, hr]
+  refine ⟨by omega, ?_, ?_⟩
+  · rw [hcnt]; rfl
+  · rw [read_in_image m pre out.stream post himg r.offset _ (by rw [← hcnt]; exact hin), ← hcnt]
+    exact hdec
+
+
+/-- The same for the weight ranges: `WeightRegsOk` with `own[k]` = the encoder's answer for exactly the channels of the
+    slice with in-slice index `≡ k`, and core `k`'s share of the block depth. -/
+theorem emitted_weight_regs_partial (c : Cfg) (offsets : List Nat) (out : Out)
+    (hv : ValidReq (reqOf c offsets)) (hw : c.doWeights = true) (h : encodeTensor c offsets = .ok out)
+    (m : ConstMem) (pre post : List Nat) (himg : m.image.toList = pre ++ out.stream ++ post) (hbase : pre.length % 16 = 0)
+    (s : Nat × Nat × Nat) (hs : s ∈ slices offsets) (hfull : c.ncores ≤ s.2.2)
+    (ws bs : List AddrRange) (hcw : createWeights c.ncores out.rawRanges pre.length none none s.2.1 = some (ws, bs)) :
+    WeightRegsOk m
+      ⟨c.ncores, s.2.1, s.2.1 + s.2.2, bs.map (toRng m.constRegion), ws.map (toRng m.constRegion)⟩
+      ((List.range c.ncores).map fun k => c.enc (chanOf c.ncores k s.2.1 s.2.2) (coreBlockDepth c.ncores c.blockDepth k)) := by
+  have hf := encodeTensor_facts c offsets out h
+  have hn : 0 < c.ncores := hv.1
+  obtain ⟨hpos, hle⟩ := slice_facts _ hv s hs
+  have hact : activeCores (reqOf c offsets) = c.ncores := by
+    unfold activeCores reqOf; simp only; have : s.2.1 + s.2.2 ≤ c.fullDepth := hle; omega
+  have hfind : ∀ k, k < c.ncores → ∃ r, findRange out.rawRanges k s.2.1 = some r ∧ r ∈ out.rawRanges ∧ Made c s.1 s.2.1 s.2.2 k r :=
+    fun k hk => find_made c offsets out hv h s hs k (by rw [hact]; exact hk)
+  have hmap := createWeightsLoop_direct_map out.rawRanges pre.length s.2.1 (List.range c.ncores) 0 (by
+    intro k hk
+    obtain ⟨r, hr, _⟩ := hfind k (List.mem_range.1 hk)
+    rw [hr]; rfl)
+  unfold createWeights at hcw
+  rw [hmap] at hcw
+  injection hcw with hcw
+  injection hcw with hws hbs
+  subst hws; subst hbs
+  have hcores : (⟨c.ncores, s.2.1, s.2.1 + s.2.2, ((List.range c.ncores).map (directScale out.rawRanges pre.length s.2.1)).map (toRng m.constRegion),
+      ((List.range c.ncores).map (directWeight out.rawRanges pre.length s.2.1)).map (toRng m.constRegion)⟩ : OpConsts).cores
+      = List.range c.ncores := by
+    unfold OpConsts.cores
+    simp only [Nat.add_sub_cancel_left]
+    apply List.filter_eq_self.2
+    intro k hk
+    have hk' := List.mem_range.1 hk
+    simp only [decide_eq_true_eq]
+    exact chanOf_nonempty _ _ _ _ hk' (by omega)
+  unfold WeightRegsOk
+  rw [hcores]
+  refine ⟨by simp, by simp, ?_⟩
+  intro p hp
+  simp only [List.map_map] at hp
+  obtain ⟨k, hk, rfl⟩ := mem_zip_map_map _ _ _ p hp
+  have hk' : k < c.ncores := List.mem_range.1 hk
+  obtain ⟨r, hr, hrm, hm⟩ := hfind k hk'
+  have hg := hf.good.rng r hrm
+  obtain ⟨_, hbytes⟩ := made_weights c _ _ _ _ r out.stream hm hg hw hn hk' hle
+  rw [cbdOf_eq_coreBlockDepth c k hn hk'] at hbytes
+  have hoff := hg.offAligned
+  have hwo := hg.woAligned
+  have hwb := hg.wbAligned
+  have hstop : r.stop ≤ out.stream.length := hg.inside
+  unfold Range.stop at hstop
+  have hlen : (c.enc (chanOf c.ncores k s.2.1 s.2.2) (coreBlockDepth c.ncores c.blockDepth k)).length = r.weightBytes := by
+    rw [← hbytes]; unfold bytesAt; simp; omega
+  simp only [Function.comp, toRng, directWeight, hr, roundUp16_of_mod _ hwb]
+  refine ⟨by omega, hlen.symm, ?_⟩
+  rw [Nat.add_assoc, read_in_image m pre out.stream post himg (r.offset + r.weightOffset) _ (by omega), hbytes]
+
+
 /-- `emitted_consts_witness` (`_witness`: a concrete instance, not the general composition theorem): the model's
     tensor, placed in a constants image and addressed by the model of `create_weights` / `create_dma_op`, satisfies
     `ScaleRegsOk ∧ WeightRegsOk` read in place and through the DMA'd buffer; a scale base 16 bytes off (the shape of
